@@ -757,9 +757,37 @@ def _split_tuple_assignments(tree):
                 return self._attr_built_lists(fn)
             return fn
 
+        def _sink_tail_call(self, stmts):
+            """`if c: x = a / else: y = b` immediately followed by `return f(.. x .. y ..)`  ==  the return duplicated into both arms
+            (tail duplication; the arms only re-bind locals).  Each copy of the call then sits on the edge that decided its
+            arguments, which is where the path rules read it (e.g. a bisection that narrows one end and recurses once)."""
+            import copy as _c
+            out = list(stmts)
+            for i in range(len(out) - 1):
+                a, b = out[i], out[i + 1]
+                if not (isinstance(a, ast.If) and a.orelse and isinstance(b, ast.Return) and isinstance(b.value, ast.Call) and i + 1 == len(out) - 1):
+                    continue
+                arms = a.body + a.orelse
+                if not all(isinstance(x, ast.Assign) and len(x.targets) == 1 and isinstance(x.targets[0], ast.Name) for x in arms):
+                    continue
+                bound = {x.targets[0].id for x in arms}
+                used = {x.id for x in ast.walk(b.value) if isinstance(x, ast.Name)}
+                if not (bound & used):
+                    continue
+                new = ast.copy_location(ast.If(test=a.test, body=a.body + [_c.deepcopy(b)], orelse=a.orelse + [_c.deepcopy(b)]), a)
+                return out[:i] + [new]
+            return out
+
+        def visit_If(self, n):
+            n = self.generic_visit(n)
+            n.body = self._sink_tail_call(n.body)
+            n.orelse = self._sink_tail_call(n.orelse)
+            return n
+
         def visit_FunctionDef(self, n):
             n = self._test_temps(n)
             n = self._attr_built_lists(n)
+            n.body = self._sink_tail_call(n.body)
             n = self.generic_visit(n)
             if any(isinstance(x, ast.FunctionDef) for st in n.body for x in ast.walk(st)):
                 def blocks(stmts):
